@@ -176,8 +176,11 @@ def polygon_triangulate(tri_idx, *args):
     return triangles
 
 
-def make_quad_mesh(points, size_u, size_v):
+def make_quad_mesh(points, size_u, size_v, **kwargs):
     """ Generates a mesh of quadrilateral elements.
+
+    Keyword arguments which are meaningful only for the triangular mesh generator (``trims``, ``vertex_spacing``, etc.)
+    are accepted and ignored. Therefore, this function can be used by the tessellation component of a surface.
 
     :param points: list of points
     :type points: list, tuple
